@@ -70,3 +70,49 @@ Theorem C20_boxing_example :
   last_round_made_no_update None None inter_reference_rules = true.
 Proof. exact inter_reference_flags. Qed.
 Print Assumptions C20_boxing_example.
+
+(* ---- pest_optimizer: the skip-until node the optimizer introduces ("skipper": (!(t1 | t2 ..) ~ ANY)*  ==>  Skip([t1; t2; ..]), inside
+   atomic rules) against the expression it replaces, on the REAL parse and check path: same offset, same logical stack, neither fails
+   or panics; the offset is the first character boundary at which a terminator matches within the input range, else the end of the
+   range.  Premises: the repaired skip_until (fix F3: [e_su_cut], necessary -- SkipRewrite.ex2_uncut_refuted), valid UTF-8 input and a
+   cursor on a character boundary (necessary -- ex3_inside_char).  Nothing is assumed about the terminators.  The trace differs: the
+   node logs nothing, the expansion logs one negative-predicate frame per skipped character and one for the closing iteration. ------ *)
+From PT Require Import Model.LinesSpec Proofs.BoundaryOps Proofs.SkipRewrite.
+
+Theorem C20_skip_rewrite : forall E fuel inh ss X pos st,
+  e_su_cut E = true -> good_inp (e_inp E) -> good_cur (e_inp E) pos -> operand_of ss X ->
+  tparse E fuel inh (su_expansion X) pos st <> Sem.Fuel ->
+  exists p cs,
+    su_spec (e_inp E) ss pos p /\
+    valid_str cs /\ between (e_inp E) pos p = encode cs /\
+    tparse E fuel inh (TSkipUntil ss) pos st = Sem.Ok (p, NSpanned KSkip pos p) st /\
+    tparse E fuel inh (su_expansion X) pos st =
+      Sem.Ok (p, NRep false (map skip_item cs))
+         (mk_state (ron_fail_stk E (stk st)) (neg_tr (S (length cs)) (Sem.tr st))) /\
+    cache (ron_fail_stk E (stk st)) = cache (stk st).
+Proof. exact C20_skip_rewrite_parse. Qed.
+Print Assumptions C20_skip_rewrite.
+
+Theorem C20_skip_rewrite_on_check : forall E fuel inh ss X pos st,
+  e_su_cut E = true -> good_inp (e_inp E) -> good_cur (e_inp E) pos -> operand_of ss X ->
+  tcheck E fuel inh (su_expansion X) pos st <> Sem.Fuel ->
+  exists p cs, su_spec (e_inp E) ss pos p /\ valid_str cs /\ between (e_inp E) pos p = encode cs /\
+    tcheck E fuel inh (TSkipUntil ss) pos st = Sem.Ok p st /\
+    tcheck E fuel inh (su_expansion X) pos st =
+      Sem.Ok p (mk_state (ron_fail_stk E (stk st)) (neg_tr (S (length cs)) (Sem.tr st))) /\
+    cache (ron_fail_stk E (stk st)) = cache (stk st).
+Proof. exact C20_skip_rewrite_check. Qed.
+Print Assumptions C20_skip_rewrite_on_check.
+
+(* the expansion ends within input-length + 5 fuel: the statement above is not vacuous *)
+Theorem C20_skip_rewrite_fuel : forall E fuel inh ss X pos st,
+  e_su_cut E = true -> good_inp (e_inp E) -> good_cur (e_inp E) pos -> operand_of ss X ->
+  i_end (e_inp E) - pos + 5 <= fuel ->
+  tparse E fuel inh (su_expansion X) pos st <> Sem.Fuel /\ tcheck E fuel inh (su_expansion X) pos st <> Sem.Fuel.
+Proof. exact skip_expansion_fuel. Qed.
+Print Assumptions C20_skip_rewrite_fuel.
+
+(* the specification determines the offset *)
+Theorem C20_skip_spec_unique : forall I ss pos p q, su_spec I ss pos p -> su_spec I ss pos q -> p = q.
+Proof. exact su_spec_unique. Qed.
+Print Assumptions C20_skip_spec_unique.
